@@ -41,7 +41,8 @@ class C16(Prop):
         for _ in range(n):
             def period():
                 return rng.choice([500_000, 1_000, 1_500_000, 2_500_000, 600_000_000, 999_000, 1_001_000, rng.randint(1, 5_000) * 1000, rng.randint(1, 3_000_000),
-                                   250_000, 86_400_000_000, 1_499, 500, 1_500])
+                                   250_000, 86_400_000_000, 1_499, 500, 1_500,
+                                   2_592_000_000_000, (2 ** 31) * 1000, (2 ** 32 - 1) * 1000])      # 30 days, 2^31 ms, the 32-bit maximum
             def enc():
                 k = rng.choice(['enum', 'bytes', 'str', 'custom'])
                 if k == 'custom':
@@ -232,8 +233,11 @@ class C16(Prop):
                 if dump != obs['dump']:
                     fails.append({'signature': 'setup-differs-after-reconnect', 'what': 'connection %d opens with %s, the first one with %s' % (k + 2, dump, obs['dump'])})
             d = dict(x.split('=', 1) for x in obs['dump'].split(' ')[1:])
+            # the two periods are judged on the bytes that went out (6 header bytes, 4 version bytes, then two 32-bit words), not on the frame object
+            raw = bytes.fromhex(obs['hex'])
+            wire = {'ka': int.from_bytes(raw[10:14], 'big'), 'life': int.from_bytes(raw[14:18], 'big')} if len(raw) >= 18 else {}
             for key, us in (('ka', case['ka']), ('life', case['life'])):
-                got = int(d[key])
+                got = wire.get(key, int(d[key]))
                 if us % 1000 == 0:
                     if got != us // 1000:
                         fails.append({'signature': 'setup-period-not-in-milliseconds', 'what': 'configured %s = %d us, SETUP announces %d ms' % (key, us, got)})
